@@ -248,3 +248,37 @@ func newVerifDeadliner(clock clockwork.Clock) *deadliner {
 	// same construction as newDeadliner (which also starts the goroutine): output buffer of 10
 	return &deadliner{label: "verif", inputChan: make(chan deadlineInput), deadlineChan: make(chan Duty, 10), clock: clock, quit: make(chan struct{})}
 }
+
+func init() { VerifHarnesses["VerifC16Add"] = VerifC16Add }
+
+// VerifC16Add: the Add wrapper against an ideal loop. VerifC16Deadliner decides what the loop (run) answers; here the
+// caller-side half is decided: every Add call - also a repeated one for the same duty - hands exactly one registration
+// to the loop and returns exactly the status the loop answered for THAT registration (no answer is remembered and
+// reused). The loop's answers are symbolic (e.g. Scheduled first, Expired once the duty's deadline has passed).
+func VerifC16Add() {
+	d := &deadliner{inputChan: make(chan deadlineInput), deadlineChan: make(chan Duty, 10), quit: make(chan struct{})}
+	k := vrt.Param("k")
+	same := vrt.Param("same") // bit i set: call i registers the same duty as call 0
+	for i := 0; i < k; i++ {
+		duty := Duty{Slot: uint64(3 + i), Type: DutyAttester}
+		if i == 0 || (same>>i)&1 == 1 {
+			duty = Duty{Slot: 3, Type: DutyAttester}
+		}
+		ans := DeadlineStatus(vrt.Byte(vrt.N("answer", i)) % 3) // what the loop answers for this registration
+		var got DeadlineStatus
+		asked := 0
+		var askedDuty Duty
+		vrt.Par1(func() { got = d.Add(duty) }, func() {
+			select {
+			case in := <-d.inputChan:
+				asked++
+				askedDuty = in.duty
+				in.success <- ans
+			default:
+			}
+		})
+		vrt.Assert("every Add hands its registration to the loop", asked == 1 && askedDuty == duty)
+		vrt.Assert("Add returns the status the loop answered for this registration", got == ans)
+	}
+	vrt.Reach("end")
+}
